@@ -11,7 +11,8 @@ EXPLANATION = (
     "loser is redirected to itself; (R17.5) Hungarian: exactly one call of pathfinding's maximising kuhn_munkres, "
     "winners derive from its solution, pairs filtered by positive ids, own-column = threshold on the diagonal, "
     "one scale constant."
-    " (R17.7) composition in VisualVoting: the track won by appearance is the track excluded from the Hungarian stage; (R17.8) the running maximum is fed only by distances that exist in the stream (a stand-in for a missing distance never becomes the 'largest distance seen').")
+    " (R17.7) composition in VisualVoting: the track won by appearance is the track excluded from the Hungarian stage; (R17.8) the running maximum is fed only by distances that exist in the stream (a stand-in for a missing distance never becomes the 'largest distance seen')."
+    ' (R17.9) the stream the engines consume is read by blocking receives only (no is_empty / try_recv / size_hint peeks at the channel); (R17.10) Hungarian weights are 64-bit fixed point.')
 NOT_DECIDED = ["permutation invariance as an input-output statement", "tie handling",
                "optimality of pathfinding::kuhn_munkres (trusted)"]
 ASSUMPTIONS = ["itertools::into_group_map and std sort behave as documented", "rustc nightly MIR construction"]
